@@ -152,7 +152,7 @@ pub mod jsonwebtoken {
     #[verifier::external_body]
     pub fn decode<T: JwtClaims>(token: &str, key: &DecodingKey, v: &Validation) -> (r: Result<TokenData<T>, JwtError>)
         ensures
-            r is Ok <==> jwt_accept(token@, *key, *v),
+            r is Ok ==> jwt_accept(token@, *key, *v),   // one direction only: what acceptance implies (the converse has more cases, e.g. an unexpected aud claim)
             r is Ok ==> r->Ok_0.header == hdr_of(token@) && r->Ok_0.claims.jclaims() == claims_of(token@),
     { unimplemented!() }
     pub trait JwtClaims: Sized { spec fn jclaims(&self) -> Seq<(Seq<char>, J)>; }
